@@ -578,3 +578,128 @@ Lemma retention_hyps K pis : Forall (valid_put K) pis -> Forall (fun pi => inW [
   segs_sorted (st_segs (st_after pis)) /\ TW (st_trees (st_after pis)) /\
   forall ks, In ks (st_segs (st_after pis)) -> seg_wf (snd ks).
 Proof. intros Hv Hw. exact (conj (sorted_after pis) (conj (TW_after pis Hw) (seg_wf_after K pis Hv))). Qed.
+
+(* ------------------------------------------------------------------------------------------ *)
+(* the invariants hold after EVERY history (ingests, queries, deletes, retention passes)          *)
+
+Definition st_good (K : Z) (st : st_state) : Prop :=
+  segs_sorted (st_segs st) /\ TW (st_trees st) /\ forall ks, In ks (st_segs st) -> seg_ok K (snd ks).
+
+Lemma dn_count l thr ch : (count_some (map fst (map (del_child l thr) ch)) <= count_some ch)%nat.
+Proof.
+  induction ch as [|o ch IH]; [cbn; lia|]. cbn [map]. rewrite !count_some_cons, del_child_fst.
+  destruct o as [c|]; [destruct (dn_del l thr c)|]; lia.
+Qed.
+
+Lemma dn_two : forall lvl thr n, two lvl n -> two lvl (dn_node lvl thr n).
+Proof.
+  induction lvl as [|l IH]; intros thr [t p s w ch] H; unfold dn_node; rewrite del_node_unfold;
+    (destruct (thr <? t); [exact H|]); cbv zeta; cbn [fst]; [exact H|].
+  cbn [two] in *. destruct H as [H1 H2]. split.
+  - intros Hc. apply H1. pose proof (dn_count l thr ch). lia.
+  - unfold oall in *. rewrite map_map. apply Forall_forall. intros o Ho. apply in_map_iff in Ho. destruct Ho as (o0 & <- & Ho0).
+    rewrite del_child_fst. destruct o0 as [c|]; [|exact I]. destruct (dn_del l thr c); [exact I|].
+    rewrite Forall_forall in H2. apply IH. exact (H2 _ Ho0).
+Qed.
+
+Lemma ret_seg_ok K thr s : seg_ok K s -> seg_ok K (ret_seg thr s).
+Proof.
+  unfold ret_seg, s_delete_before_unix. rewrite s_delete_before_eq. unfold seg_ok.
+  destruct (s_root s) as [[lvl n]|] eqn:E; [|intros _; cbn [fst]; rewrite E; exact I].
+  destruct (dn_del lvl _ n); cbn [fst s_root]; [intros _; exact I|]. intros (Hl & Hwf & Htwo & Hb1 & Hb2).
+  split; [exact Hl|]. split; [apply dn_wf, Hwf|]. split; [apply dn_two, Htwo|]. unfold in_blk. rewrite dn_time. split; assumption.
+Qed.
+
+Lemma sorted_ret thr l : segs_sorted l -> segs_sorted (flat_map (ret_entry thr) l).
+Proof.
+  induction l as [|ks l IH]; intros H; [exact I|]. cbn [segs_sorted] in H. destruct H as [H1 H2]. cbn [flat_map].
+  assert (Hall : Forall (fun x => bcmp (sid_key (fst ks)) (sid_key (fst x)) = Lt) (flat_map (ret_entry thr) l)).
+  { apply Forall_forall. intros x Hx. apply in_flat_map in Hx. destruct Hx as (y & Hy & Hx). unfold ret_entry in Hx.
+    destruct (ret_del thr (snd y)); [destruct Hx|]. destruct Hx as [<-|[]]. cbn [fst]. rewrite Forall_forall in H1. apply H1, Hy. }
+  unfold ret_entry at 1. destruct (ret_del thr (snd ks)); cbn [app]; [apply IH, H2|]. cbn [segs_sorted fst]. split; [exact Hall|apply IH, H2].
+Qed.
+
+Lemma TW_removes {A} (f : A -> tkey) cbs : forall trees, TW trees -> TW (fold_left (fun tr c => tree_remove (f c) tr) cbs trees).
+Proof. induction cbs as [|c cbs IH]; intros trees H; [exact H|]. cbn [fold_left]. apply IH, TW_remove, H. Qed.
+
+Lemma good_init K : st_good K st_init.
+Proof. split; [exact I|]. split; [intros key tr; discriminate|intros ks []]. Qed.
+
+Lemma good_put K rt pi st : valid_put K pi -> inW [] (pi_tree pi) -> st_good K st -> st_good K (fst (st_put rt pi st)).
+Proof.
+  intros Hv Hw (HS & HT & HK).
+  assert (Hnone : st_good K (fst (st_put None pi st))).
+  { rewrite st_put_none. cbn [fst]. split; [|split]; cbn [st_segs st_trees].
+    - apply seg_store_sorted, HS.
+    - revert HT. generalize (st_trees st). induction (snd (pi_res pi st)) as [|c cbs IHc]; intros trees HT; [exact HT|].
+      cbn [fold_left]. apply IHc, TW_put_cb; assumption.
+    - intros ks Hks. apply seg_store_in in Hks. destruct Hks as [->|Hks]; [|apply HK, Hks]. cbn [snd]. unfold pi_res.
+      apply s_put_ok; [exact Hv|]. unfold pi_seg0. destruct (seg_lookup (pi_sid pi) (st_segs st)) as [s|] eqn:E; [|exact I].
+      destruct (seg_lookup_in _ _ _ E) as (ks & Hks & _ & <-). exact (HK ks Hks). }
+  destruct rt as [thr|]; [|exact Hnone]. destruct (Z.ltb_spec (pi_from pi) thr) as [H|H].
+  - rewrite retention_reject by exact H. exact (conj HS (conj HT HK)).
+  - rewrite retention_accept by exact H. exact Hnone.
+Qed.
+
+Lemma good_delete K sel st : st_good K st -> st_good K (st_delete sel st).
+Proof.
+  intros (HS & HT & HK). unfold st_delete. set (ms := filter _ (st_segs st)).
+  destruct (delete_fold ms st) as (_ & _ & D3). cbn zeta in D3. split; [|split].
+  - rewrite D3. apply filter_sorted, HS.
+  - clear D3. revert HT. generalize st. induction ms as [|ks ms IH]; intros st0 HT0; [exact HT0|]. cbn [fold_left]. apply IH.
+    rewrite st_delete_series_eq. cbn [st_trees]. apply TW_removes, HT0.
+  - intros ks Hks. rewrite D3 in Hks. apply filter_In in Hks. apply HK, Hks.
+Qed.
+
+Lemma good_retention K thr st : st_good K st -> st_good K (st_retention thr st).
+Proof.
+  intros (HS & HT & HK). destruct (st_retention_spec thr st HS) as [E _]. split; [|split].
+  - rewrite E. apply sorted_ret, HS.
+  - apply TW_retention; assumption.
+  - intros ks Hks. rewrite E in Hks. apply in_flat_map in Hks. destruct Hks as (y & Hy & Hks). unfold ret_entry in Hks.
+    destruct (ret_del thr (snd y)); [destruct Hks|]. destruct Hks as [<-|[]]. cbn [snd]. apply ret_seg_ok, HK, Hy.
+Qed.
+
+Definition good_op (K : Z) (o : st_op) : Prop :=
+  match o with OpPut pi => valid_put K pi /\ inW [] (pi_tree pi) | _ => True end.
+
+Lemma good_step K rt st o : good_op K o -> st_good K st -> st_good K (fst (st_step rt st o)).
+Proof.
+  intros Ho H. destruct o as [pi|sel f u|sel|thr]; cbn [st_step].
+  - destruct Ho as [Hv Hw]. pose proof (good_put K rt pi st Hv Hw H) as G. destruct (st_put rt pi st). exact G.
+  - exact H.
+  - apply good_delete, H.
+  - apply good_retention, H.
+Qed.
+
+Lemma good_run K rt ops : Forall (good_op K) ops -> forall st, st_good K st -> st_good K (fst (st_run rt ops st)).
+Proof.
+  induction 1 as [|o ops Ho _ IH]; intros st H; [exact H|]. cbn [st_run].
+  pose proof (good_step K rt st o Ho H) as G. destruct (st_step rt st o) as [st1 out]. cbn [fst] in G.
+  specialize (IH st1 G). destruct (st_run rt ops st1). exact IH.
+Qed.
+
+Lemma good_hyps K st : st_good K st ->
+  segs_sorted (st_segs st) /\ TW (st_trees st) /\ forall ks, In ks (st_segs st) -> seg_wf (snd ks).
+Proof.
+  intros (HS & HT & HK). split; [exact HS|]. split; [exact HT|]. intros ks Hks. specialize (HK ks Hks).
+  unfold seg_ok, seg_wf in *. destruct (s_root (snd ks)) as [[lvl n]|]; [apply HK|exact I].
+Qed.
+
+(* the three clauses after an arbitrary history *)
+Lemma retention_run K rt ops thr sel from until p : Forall (good_op K) ops ->
+  let st := fst (st_run rt ops st_init) in
+  let ab := s_normalize_unix (from, until) in
+  fst ab < snd ab -> has_average (st_matching sel st) = false ->
+  (unix_to_slot thr <= fst ab ->
+     option_map (fun o => (go_tree o, go_timeline o)) (st_get sel from until (st_retention thr st)) =
+     option_map (fun o => (go_tree o, go_timeline o)) (st_get sel from until st)) /\
+  (snd ab <= unix_to_slot thr -> st_get sel from until (st_retention thr st) = None) /\
+  (get_self p (st_get sel from until (st_retention thr st)) <= get_self p (st_get sel from until st))%N.
+Proof.
+  intros Hops st ab Hab Havg. destruct (good_hyps K st (good_run K rt ops Hops st_init (good_init K))) as (HS & HT & HW).
+  split; [|split].
+  - intros HT1. apply retention_after; assumption.
+  - intros HT2. apply retention_before; assumption.
+  - apply retention_le; assumption.
+Qed.
